@@ -266,6 +266,7 @@ pub fn execute(plan: &Plan) -> Outcome {
     let mut idle_iterations = 0usize;
     let mut drops = 0usize;
     let mut passes_after_close = 0usize;
+    let mut polls_while_down = 0usize;
 
     let submit_extra = |client: &SyncClientHandle, receivers_pub: &mut Vec<Slot<PublishResult>>, name: &str| {
         let packet = PublishPacket::builder("extra".to_string(), QualityOfService::AtLeastOnce).with_payload(vec![9, 9, 9]).build();
@@ -399,6 +400,16 @@ pub fn execute(plan: &Plan) -> Outcome {
                     }, Duration::from_secs(10));
                     if !dead { let ev = events.lock().unwrap().clone(); out.problem("close-does-not-terminate-loop", format!("10 s after close() the operation channel is still open; events {:?}", ev)); }
                     break 'outer;
+                }
+                // the loop thread must outlive everything but close(): once it has ended every API call fails
+                polls_while_down += 1;
+                if !close_issued && polls_while_down % 64 == 0 {
+                    let probe: ClientEventListener = Arc::new(|_event: Arc<ClientEvent>| {});
+                    if client.add_event_listener(probe).is_err() {
+                        let ev = events.lock().unwrap().clone();
+                        out.problem("event-loop-ended-without-close", format!("the client's event loop has ended although close() was never called (stop requested: {}); events {:?}", stop_issued, ev));
+                        break 'outer;
+                    }
                 }
                 std::thread::sleep(Duration::from_micros(300));
             }
